@@ -160,8 +160,11 @@ func dirSum(path string, dir *os.File) (string, error) {
 
 	h := sha256.New()
 	for _, entry := range entries {
+		// An entry that cannot be opened because it does not exist (a dangling symbolic link, or a file removed since
+		// the directory was listed) is covered by its name with an empty sum, like a missing source file. It must not
+		// make the directory itself look missing: that would hide every other change in the directory.
 		sum, err := fileSum(filepath.Join(path, entry.Name()))
-		if err != nil {
+		if err != nil && !os.IsNotExist(err) {
 			return "", err
 		}
 		if _, err := h.Write([]byte(entry.Name() + "\x00" + sum + "\n")); err != nil {
